@@ -109,6 +109,7 @@ pub open spec fn top_rank(e: Expression) -> int {
 }
 /// well-bracketed with respect to the table: left child at least as tight as the node, right
 /// child strictly tighter (left associativity); operand of a unary operator at least `* /`.
+pub open spec fn params_pt_ok(ps: Seq<(Identifier, Type)>) -> bool { forall|k: int| 0 <= k < ps.len() ==> pt_ok((#[trigger] ps[k]).1) }
 pub open spec fn wf(e: Expression) -> bool decreases e {
     match e.kind {
         ExpressionKind::AssertEq(l, r) | ExpressionKind::Or(l, r) | ExpressionKind::And(l, r)
@@ -326,12 +327,59 @@ impl Next for Prec {
 
 // ---- leaf parsers left outside (assumed): the root of what they return is not a binary node ----
 //@ fn sylt-parser/src/expression.rs function
-//@   mode assumed
+//@   props C07 C13
+//@   attr #[verifier::exec_allows_no_decreases_clause]
 //@   ret r
+//@   rewrite equivalent
+//@- let ret = loop {
+//@+ let mut ret_slot: Option<Type> = None; loop {
+//@   why Verus has no `break` with a value: the value is stored in a slot right before a plain break and read after the loop (last part below); that the slot is filled on every exit is an obligation the verifier discharges (the unreachable!() in the read)
+//@   endrewrite
+//@   rewrite equivalent
+//@- break if let Ok((ctx_, ret)) = parse_type(ctx) {
+//@-     ctx = ctx_; // assign to outer
+//@-     ret
+//@- } else {
+//@-     Type { span: ctx.span(), kind: Resolved(Unknown) }
+//@- };
+//@+ ret_slot = Some(if let Ok((ctx_, ret)) = parse_type(ctx) {
+//@+     ctx = ctx_; // assign to outer
+//@+     ret
+//@+ } else {
+//@+     Type { span: ctx.span(), kind: Resolved(Unknown) }
+//@+ }); break;
+//@   why part of the rewrite above
+//@   endrewrite
+//@   rewrite equivalent
+//@- break Type { span: ctx.span(), kind: Resolved(Void) };
+//@+ ret_slot = Some(Type { span: ctx.span(), kind: Resolved(Void) }); break;
+//@   why part of the rewrite above
+//@   endrewrite
+//@   rewrite equivalent
+//@-         }
+//@-     }
+//@- };
+//@+         }
+//@+     }
+//@+ } let ret = match ret_slot { Some(t) => t, None => unreachable!() };
+//@   why last part of the rewrite above
+//@   endrewrite
+//@   rewrite rule:R-deref
+//@- if name == "self" {
+//@+ if *name == *"self" {
+//@   why vstd has no specification for the reference-level blanket impl of == on (&String, &str); dereferencing both sides calls String: PartialEq<str> directly
+//@   endrewrite
 //@   spec
-        ensures r is Ok ==> wf(r->Ok_0.1) && top_rank(r->Ok_0.1) == 100,
-        r is Ok ==> pe_shape(r->Ok_0.1),
+        ensures r is Ok ==> wf(r->Ok_0.1) && top_rank(r->Ok_0.1) == 100, //# C13 function.is_an_atom
+        r is Ok ==> pe_shape(r->Ok_0.1), //# C07 function.result_shape
 //@   endspec
+//@   loop 1
+        invariant params_pt_ok(params@), //# C07 function.loop1.parameter_types_are_translatable
+        ensures ret_slot is Some && pt_ok(ret_slot->Some_0), //# C07 function.loop1.the_return_type_is_set_on_exit
+//@   endloop
+//@   loop 2
+        invariant pall_shape(statements@), //# C07 function.loop2.aux1
+//@   endloop
 //@ end
 //@ fn sylt-parser/src/expression.rs if_expression
 //@   props C07 C13
